@@ -1,10 +1,461 @@
 import Xp.Model.C11
-namespace Xp.C11
+import Xp.Proofs.C11
+/-
+C11 property theorems: the CRDs derived from an XRD are the author's schema plus
+intact Crossplane machinery; colliding claim names are rejected; group and
+kind/plural cannot change.
 
-theorem scope_xr (xrd : Xrd) (crd : Crd) (h : forXR xrd = .ok crd) : crd.scope = "Cluster" := by
-  unfold forXR at h
+`derive .xr = forXR` models xcrd.ForCompositeResource, `derive .claim = forClaim`
+models xcrd.ForCompositeResourceClaim.  All theorems quantify over every XRD
+(any number of versions, any schema tree, any names, policies, conversion) and,
+where they speak about the machinery, are stated over the tables regenerated
+from /repo (`Xp.Gen.xcrd…`).  The `tables_…`/`machinery_…complete`/`…_shape`
+theorems are obligations on those generated tables: they break when the tree's
+tables stop containing the machinery the property names.
+-/
+namespace Xp.C11
+open Xp.Gen
+
+/-! ## obligations on the regenerated tables -/
+
+/-- the key lists and the full tables come from the same functions, and no table repeats a key
+(so Go's map iteration order cannot influence the result) -/
+theorem tables_consistent :
+    keys xcrdSpecPropsXR = specPropsXR ∧ keys xcrdSpecPropsClaim = specPropsClaim ∧ keys xcrdStatusProps = statusProps ∧
+    specPropsXR.Nodup ∧ specPropsClaim.Nodup ∧ statusProps.Nodup := by decide
+
+/-- the machinery the property names is in the tables: composition selection, references,
+connection secret settings (spec) and conditions / connection details (status) -/
+theorem machinery_complete :
+    (∀ k ∈ ["compositionRef", "compositionSelector", "compositionRevisionRef", "compositionRevisionSelector",
+            "compositionUpdatePolicy", "claimRef", "resourceRefs", "publishConnectionDetailsTo",
+            "writeConnectionSecretToRef"], k ∈ specPropsXR) ∧
+    (∀ k ∈ ["compositionRef", "compositionSelector", "compositionRevisionRef", "compositionRevisionSelector",
+            "compositionUpdatePolicy", "compositeDeletePolicy", "resourceRef", "publishConnectionDetailsTo",
+            "writeConnectionSecretToRef"], k ∈ specPropsClaim) ∧
+    (∀ k ∈ ["conditions", "connectionDetails"], k ∈ statusProps) ∧
+    (∀ k ∈ propagateSpecProps, k ∈ specPropsXR ∧ k ∈ specPropsClaim) := by decide
+
+/-- what "standard schema" means, stated without the tables: type, required list and property
+names of every machinery field of a composite resource -/
+theorem machinery_shape_xr : shape xcrdSpecPropsXR = [
+    ("claimRef", "object", ["apiVersion", "kind", "namespace", "name"], ["apiVersion", "kind", "name", "namespace"]),
+    ("compositionRef", "object", ["name"], ["name"]),
+    ("compositionRevisionRef", "object", ["name"], ["name"]),
+    ("compositionRevisionSelector", "object", ["matchLabels"], ["matchLabels"]),
+    ("compositionSelector", "object", ["matchLabels"], ["matchLabels"]),
+    ("compositionUpdatePolicy", "string", [], []),
+    ("publishConnectionDetailsTo", "object", ["name"], ["configRef", "metadata", "name"]),
+    ("resourceRefs", "array", [], []),
+    ("writeConnectionSecretToRef", "object", ["name", "namespace"], ["name", "namespace"])] := by decide
+
+theorem machinery_shape_claim : shape xcrdSpecPropsClaim = [
+    ("compositeDeletePolicy", "string", [], []),
+    ("compositionRef", "object", ["name"], ["name"]),
+    ("compositionRevisionRef", "object", ["name"], ["name"]),
+    ("compositionRevisionSelector", "object", ["matchLabels"], ["matchLabels"]),
+    ("compositionSelector", "object", ["matchLabels"], ["matchLabels"]),
+    ("compositionUpdatePolicy", "string", [], []),
+    ("publishConnectionDetailsTo", "object", ["name"], ["configRef", "metadata", "name"]),
+    ("resourceRef", "object", ["apiVersion", "kind", "name"], ["apiVersion", "kind", "name"]),
+    ("writeConnectionSecretToRef", "object", ["name"], ["name"])] := by decide
+
+theorem machinery_shape_status : shape xcrdStatusProps = [
+    ("claimConditionTypes", "array", [], []),
+    ("conditions", "array", [], []),
+    ("connectionDetails", "object", [], ["lastPublishedTime"])] := by decide
+
+/-- BaseProps: an object that requires `spec`, with apiVersion, kind, metadata, spec, status; the
+spec and status nodes start empty (so nothing but the author's and the machinery's fields end up there) -/
+theorem base_schema :
+    xcrdBaseProps.type = "object" ∧ xcrdBaseProps.required = ["spec"] ∧
+    keys xcrdBaseProps.props = ["apiVersion", "kind", "metadata", "spec", "status"] ∧
+    (prop xcrdBaseProps "metadata").type = "object" ∧
+    (prop xcrdBaseProps "spec").type = "object" ∧ keys (prop xcrdBaseProps "spec").props = [] ∧
+    (prop xcrdBaseProps "spec").required = [] ∧ (prop xcrdBaseProps "spec").xValidations = [] ∧
+    (prop xcrdBaseProps "spec").oneOf = [] ∧
+    (prop xcrdBaseProps "status").type = "object" ∧ keys (prop xcrdBaseProps "status").props = [] := by decide
+
+/-- names are used as label values: the limit written into both CRDs is 63 -/
+theorem name_limit : maxNameLengthOf .xr = 63 ∧ maxNameLengthOf .claim = 63 := by decide
+
+/-! ## machinery intact -/
+
+/-- Whatever the author wrote under a machinery key of `spec` (in any version, in either CRD),
+the CRD carries the standard schema of the table there; the only variation is the `default` of the
+policy field when the XRD sets a default policy. -/
+theorem machinery_intact (w : Which) (xrd : Xrd) (crd : Crd) (h : derive w xrd = .ok crd) :
+    ∀ cv ∈ crd.versions, ∀ k std, lookup k (tableOf w) = some std →
+      lookup k (prop cv.schema "spec").props =
+        some (if k = policyKey w then applyDefault (policyOf w xrd) std else std) := by
+  intro cv hcv k std hk
+  obtain ⟨vr, _, s, _, rfl⟩ := forall2_mem_right (derive_versions w xrd crd h) cv hcv
+  rw [decorate_spec]
+  have hkeysT : (keys (tableOf w)).Nodup ∧ policyKey w ∈ keys (tableOf w) := by cases w <;> decide
+  have hmach : machineryOf w xrd = withDefault (policyKey w) (policyOf w xrd) (tableOf w) := by cases w <;> rfl
+  have hkeys : keys (machineryOf w xrd) = keys (tableOf w) := by rw [hmach]; exact keys_withDefault _ _ _ hkeysT.2
+  have hmem : k ∈ keys (machineryOf w xrd) := by rw [hkeys]; exact mem_keys_of_lookup k std _ hk
+  show lookup k (setAll _ (machineryOf w xrd)) = _
+  rw [lookup_setAll_of_mem k _ _ (by rw [hkeys]; exact hkeysT.1) hmem, hmach]
+  by_cases hp : k = policyKey w
+  · subst hp; simp only [if_true]; exact lookup_withDefault_self _ _ _ _ hk
+  · simp only [hp, if_false]; rw [lookup_withDefault_ne _ _ _ _ hp]; exact hk
+
+/-- the same for the machinery status fields (conditions, connectionDetails, claimConditionTypes) -/
+theorem machinery_intact_status (w : Which) (xrd : Xrd) (crd : Crd) (h : derive w xrd = .ok crd) :
+    ∀ cv ∈ crd.versions, ∀ k std, lookup k xcrdStatusProps = some std →
+      lookup k (prop cv.schema "status").props = some std := by
+  intro cv hcv k std hk
+  obtain ⟨vr, _, s, _, rfl⟩ := forall2_mem_right (derive_versions w xrd crd h) cv hcv
+  rw [decorate_status]
+  show lookup k (setAll _ xcrdStatusProps) = _
+  rw [lookup_setAll_of_mem k _ _ (by decide) (mem_keys_of_lookup k std _ hk)]
+  exact hk
+
+/-- the envelope cannot be altered either: every version's schema is an object requiring `spec`,
+apiVersion and kind are BaseProps', `spec`, `status`, `metadata` stay objects, and `metadata`
+declares nothing but `name` – whatever the author's top-level schema says -/
+theorem machinery_intact_root (w : Which) (xrd : Xrd) (crd : Crd) (h : derive w xrd = .ok crd) :
+    ∀ cv ∈ crd.versions,
+      cv.schema.type = "object" ∧ cv.schema.required = ["spec"] ∧
+      lookup "apiVersion" cv.schema.props = lookup "apiVersion" xcrdBaseProps.props ∧
+      lookup "kind" cv.schema.props = lookup "kind" xcrdBaseProps.props ∧
+      (prop cv.schema "spec").type = "object" ∧ (prop cv.schema "status").type = "object" ∧
+      (prop cv.schema "metadata").type = "object" ∧ keys (prop cv.schema "metadata").props = ["name"] := by
+  intro cv hcv
+  obtain ⟨vr, _, s, _, rfl⟩ := forall2_mem_right (derive_versions w xrd crd h) cv hcv
+  refine ⟨by simp only [decorate, mkVersion, writeSpecProps, genSchema]; decide,
+          by simp only [decorate, mkVersion, writeSpecProps, genSchema]; decide, ?_, ?_, ?_, ?_, ?_, ?_⟩
+  · simp only [decorate, mkVersion]
+    rw [writeSpecProps_other _ _ _ (by decide), genSchema_other _ _ _ (by decide) (by decide) (by decide)]
+  · simp only [decorate, mkVersion]
+    rw [writeSpecProps_other _ _ _ (by decide), genSchema_other _ _ _ (by decide) (by decide) (by decide)]
+  · rw [decorate_spec]; simp only [genSpec]; decide
+  · rw [decorate_status]; simp only [genStatus]; decide
+  · rw [decorate_metadata]; simp only [genMetadata]; decide
+  · rw [decorate_metadata]; simp only [genMetadata, keys, List.map]
+
+/-! ## author's schema kept -/
+
+/-- Every property the author declares under `spec` / `status` whose name is not a machinery key
+is carried unchanged into both CRDs, in every version, and nothing else appears there. (An author's
+`properties` is a JSON object, hence without duplicate keys.) -/
+theorem author_kept (w : Which) (xrd : Xrd) (crd : Crd) (h : derive w xrd = .ok crd) :
+    Zip (fun vr cv => ∀ s, vr.schema = .ok s →
+        ((keys (prop s "spec").props).Nodup → ∀ k, k ∉ keys (tableOf w) →
+            lookup k (prop cv.schema "spec").props = lookup k (prop s "spec").props) ∧
+        ((keys (prop s "status").props).Nodup → ∀ k, k ∉ statusProps →
+            lookup k (prop cv.schema "status").props = lookup k (prop s "status").props))
+      xrd.versions crd.versions := by
+  refine zip_imp (derive_versions w xrd crd h) ?_
+  rintro vr cv ⟨s, hs, rfl⟩ s' hs'
+  rw [hs] at hs'; cases hs'
+  have hkeysT : (keys (tableOf w)).Nodup ∧ policyKey w ∈ keys (tableOf w) := by cases w <;> decide
+  have hmach : machineryOf w xrd = withDefault (policyKey w) (policyOf w xrd) (tableOf w) := by cases w <;> rfl
+  have hkeys : keys (machineryOf w xrd) = keys (tableOf w) := by rw [hmach]; exact keys_withDefault _ _ _ hkeysT.2
+  constructor
+  · intro hnd k hk
+    rw [decorate_spec]
+    show lookup k (setAll _ (machineryOf w xrd)) = _
+    rw [lookup_setAll_of_not_mem k _ _ (by rw [hkeys]; exact hkeysT.1) (by rw [hkeys]; exact hk)]
+    show lookup k (setAll (prop xcrdBaseProps "spec").props (prop s "spec").props) = _
+    rw [lookup_setAll k _ _ hnd]
+    have : lookup k (prop xcrdBaseProps "spec").props = none := lookup_eq_none_of_not_mem _ _ (by
+      have : keys (prop xcrdBaseProps "spec").props = [] := by decide
+      rw [this]; simp)
+    rw [this]; cases lookup k (prop s "spec").props <;> rfl
+  · intro hnd k hk
+    rw [decorate_status]
+    show lookup k (setAll _ xcrdStatusProps) = _
+    rw [lookup_setAll_of_not_mem k _ _ (by decide) (by
+      have : keys xcrdStatusProps = statusProps := by decide
+      rw [this]; exact hk)]
+    rw [lookup_setAll k _ _ hnd]
+    have : lookup k (prop xcrdBaseProps "status").props = none := lookup_eq_none_of_not_mem _ _ (by
+      have : keys (prop xcrdBaseProps "status").props = [] := by decide
+      rw [this]; simp)
+    rw [this]; cases lookup k (prop s "status").props <;> rfl
+
+/-- required lists, CEL rules, oneOf alternatives, descriptions and the spec's
+preserve-unknown-fields switch of the author's `spec` and `status` are carried exactly -/
+theorem author_rules_kept (w : Which) (xrd : Xrd) (crd : Crd) (h : derive w xrd = .ok crd) :
+    Zip (fun vr cv => ∀ s, vr.schema = .ok s →
+        (prop cv.schema "spec").required = (prop s "spec").required ∧
+        (prop cv.schema "spec").xValidations = (prop s "spec").xValidations ∧
+        (prop cv.schema "spec").oneOf = (prop s "spec").oneOf ∧
+        (prop cv.schema "spec").description = (prop s "spec").description ∧
+        (prop cv.schema "spec").preserveUnknown = (prop s "spec").preserveUnknown ∧
+        (prop cv.schema "status").required = (prop s "status").required ∧
+        (prop cv.schema "status").xValidations = (prop s "status").xValidations ∧
+        (prop cv.schema "status").oneOf = (prop s "status").oneOf ∧
+        (prop cv.schema "status").description = (prop s "status").description ∧
+        cv.schema.description = s.description)
+      xrd.versions crd.versions := by
+  refine zip_imp (derive_versions w xrd crd h) ?_
+  rintro vr cv ⟨s, hs, rfl⟩ s' hs'
+  rw [hs] at hs'; cases hs'
+  have hb := base_schema
+  rw [decorate_spec, decorate_status]
+  simp only [genSpec, genStatus, hb.2.2.2.2.2.2.1, hb.2.2.2.2.2.2.2.1, hb.2.2.2.2.2.2.2.2.1, List.nil_append, true_and]
+  simp [decorate, mkVersion, writeSpecProps, genSchema]
+
+/-! ## versions, storage, subresource, scope, owner, names -/
+
+/-- every version of the XRD appears, in order, with its name, served flag, deprecation data and
+the author's printer columns followed by the machinery's -/
+theorem versions_all (w : Which) (xrd : Xrd) (crd : Crd) (h : derive w xrd = .ok crd) :
+    Zip (fun vr cv => cv.name = vr.name ∧ cv.served = vr.served ∧ cv.deprecated = vr.deprecated.getD false ∧
+          cv.deprecationWarning = vr.deprecationWarning ∧ cv.columns = vr.columns ++ columnsOf w)
+      xrd.versions crd.versions := by
+  refine zip_imp (derive_versions w xrd crd h) ?_
+  rintro vr cv ⟨s, _, rfl⟩
+  simp [decorate, mkVersion]
+
+/-- the storage flag of every CRD version is the referenceable flag of the XRD version -/
+theorem one_storage (w : Which) (xrd : Xrd) (crd : Crd) (h : derive w xrd = .ok crd) :
+    Zip (fun vr cv => cv.storage = vr.referenceable) xrd.versions crd.versions := by
+  refine zip_imp (derive_versions w xrd crd h) ?_
+  rintro vr cv ⟨s, _, rfl⟩
+  simp [decorate, mkVersion]
+
+/-- hence an XRD with exactly one referenceable version yields exactly one storage version -/
+theorem one_storage_exactly (w : Which) (xrd : Xrd) (crd : Crd) (h : derive w xrd = .ok crd)
+    (h1 : (xrd.versions.filter (·.referenceable)).length = 1) : (crd.versions.filter (·.storage)).length = 1 := by
+  rw [← h1]
+  exact forall2_filter_length (one_storage w xrd crd h)
+
+/-- the status subresource is always on (and no scale subresource is invented) -/
+theorem status_subresource (w : Which) (xrd : Xrd) (crd : Crd) (h : derive w xrd = .ok crd) :
+    ∀ cv ∈ crd.versions, cv.statusSubresource = true ∧ cv.scaleSubresource = false := by
+  intro cv hcv
+  obtain ⟨vr, _, s, _, rfl⟩ := forall2_mem_right (derive_versions w xrd crd h) cv hcv
+  simp [decorate, mkVersion]
+
+/-- composites are cluster scoped, claims namespaced -/
+theorem scope (xrd : Xrd) (crd : Crd) :
+    (derive .xr xrd = .ok crd → crd.scope = "Cluster") ∧ (derive .claim xrd = .ok crd → crd.scope = "Namespaced") := by
+  constructor
+  · intro h; obtain ⟨vs, _, rfl⟩ := forXR_ok xrd crd h; rfl
+  · intro h; obtain ⟨c, vs, _, _, rfl⟩ := forClaim_ok xrd crd h; rfl
+
+/-- both CRDs have exactly one owner reference: a controller reference to the XRD -/
+theorem controller_ref (w : Which) (xrd : Xrd) (crd : Crd) (h : derive w xrd = .ok crd) :
+    crd.owners = [{ apiVersion := xrdApiVersion, kind := xrdKind, name := xrd.name, uid := xrd.uid,
+                    controller := true, blockOwnerDeletion := true }] := by
+  cases w with
+  | xr => obtain ⟨vs, _, rfl⟩ := forXR_ok xrd crd h; rfl
+  | claim => obtain ⟨c, vs, _, _, rfl⟩ := forClaim_ok xrd crd h; rfl
+
+/-- group, conversion settings and names: the composite CRD is named like the XRD and carries its
+names plus the `composite` category; the claim CRD is `<plural>.<group>` of the claim names and
+carries them plus the `claim` category -/
+theorem names_carried (xrd : Xrd) (crd : Crd) :
+    (derive .xr xrd = .ok crd → crd.group = xrd.group ∧ crd.conversion = xrd.conversion ∧ crd.name = xrd.name ∧
+        crd.names = { xrd.names with categories := xrd.names.categories ++ [categoryComposite] }) ∧
+    (derive .claim xrd = .ok crd → ∃ c, xrd.claimNames = some c ∧ crd.group = xrd.group ∧
+        crd.conversion = xrd.conversion ∧ crd.name = c.plural ++ "." ++ xrd.group ∧
+        crd.names = { c with categories := c.categories ++ [categoryClaim] }) := by
+  constructor
+  · intro h; obtain ⟨vs, _, rfl⟩ := forXR_ok xrd crd h; exact ⟨rfl, rfl, rfl, rfl⟩
+  · intro h
+    obtain ⟨c, vs, hc, _, rfl⟩ := forClaim_ok xrd crd h
+    exact ⟨c, (validateClaimNames_ok xrd c hc).1, rfl, rfl, rfl, rfl⟩
+
+/-- `metadata.name` is a string whose length limit is the smaller of the author's and 63 -/
+theorem name_maxlen (w : Which) (xrd : Xrd) (crd : Crd) (h : derive w xrd = .ok crd) :
+    Zip (fun vr cv => ∀ s, vr.schema = .ok s →
+        (prop (prop cv.schema "metadata") "name").type = "string" ∧
+        (prop (prop cv.schema "metadata") "name").maxLength =
+          some (match (prop (prop s "metadata") "name").maxLength with
+                | some a => min a 63
+                | none => 63))
+      xrd.versions crd.versions := by
+  refine zip_imp (derive_versions w xrd crd h) ?_
+  rintro vr cv ⟨s, hs, rfl⟩ s' hs'
+  rw [hs] at hs'; cases hs'
+  rw [decorate_metadata]
+  have hm : maxNameLengthOf w = 63 := by cases w <;> decide
+  simp only [genMetadata, prop, lookup, if_true, Option.getD_some, nameMaxLength, hm, true_and]
+  cases (((lookup "name" ((lookup "metadata" s.props).getD {}).props).getD {}).maxLength) with
+  | none => rfl
+  | some a =>
+    simp only [Int.min_def]
+    split <;> split <;> first | rfl | (congr 1; omega)
+
+/-! ## unusable schemas and claim names -/
+
+/-- a version without a schema, or with one that does not parse, makes both derivations fail -/
+theorem invalid_schema_rejected (w : Which) (xrd : Xrd) (h : ∃ vr ∈ xrd.versions, ∀ s, vr.schema ≠ .ok s) :
+    ∃ e, derive w xrd = .error e := by
+  cases w with
+  | xr =>
+    obtain ⟨e, he⟩ := genVersions_error_of_bad xrd.versions xcrdMaxNameLengthXR xcrdPrinterColumnsXR (xrSpecMachinery xrd) h
+    exact ⟨e, by simp [derive, forXR, he]⟩
+  | claim =>
+    simp only [derive, forClaim]
+    cases hv : validateClaimNames xrd with
+    | error e => exact ⟨e, rfl⟩
+    | ok c =>
+      obtain ⟨e, he⟩ := genVersions_error_of_bad xrd.versions xcrdMaxNameLengthClaim xcrdPrinterColumnsClaim (claimSpecMachinery xrd) h
+      exact ⟨e, by simp [he]⟩
+
+/-- claim names whose kind, plural, singular or listKind equals the composite's corresponding name
+are rejected: no claim CRD is derived -/
+theorem claim_names_rejected (xrd : Xrd) (c : Names) (hc : xrd.claimNames = some c)
+    (hcol : claimNamesCollide c xrd.names) : ∃ n, derive .claim xrd = .error (.conflictingClaimName n) := by
+  have hv : ∃ n, validateClaimNames xrd = .error (.conflictingClaimName n) := by
+    unfold validateClaimNames
+    rw [hc]
+    simp only []
+    split
+    · exact ⟨_, rfl⟩
+    · split
+      · exact ⟨_, rfl⟩
+      · split
+        · exact ⟨_, rfl⟩
+        · split
+          · exact ⟨_, rfl⟩
+          · rename_i h1 h2 h3 h4
+            rcases hcol with h | h | h | h
+            · exact absurd h h1
+            · exact absurd h h2
+            · exact absurd h h3
+            · exact absurd h h4
+  obtain ⟨n, hn⟩ := hv
+  exact ⟨n, by simp only [derive, forClaim, hn]⟩
+
+/-- and conversely a claim CRD is only ever derived from present, non-colliding claim names -/
+theorem claim_crd_only_if_no_collision (xrd : Xrd) (crd : Crd) (h : derive .claim xrd = .ok crd) :
+    ∃ c, xrd.claimNames = some c ∧ ¬ claimNamesCollide c xrd.names := by
+  obtain ⟨c, vs, hc, _, _⟩ := forClaim_ok xrd crd h
+  obtain ⟨h0, h1, h2, h3, h4⟩ := validateClaimNames_ok xrd c hc
+  refine ⟨c, h0, ?_⟩
+  rintro (h | h | h | h)
+  · exact h1 h
+  · exact h2 h
+  · exact h3 h
+  · exact h4 h
+
+/-- the webhook never admits an XRD whose claim names collide, whatever the API server answers -/
+theorem claim_collision_not_admitted (xrd : Xrd) (c : Names) (hc : xrd.claimNames = some c)
+    (hcol : claimNamesCollide c xrd.names) (server : Crd → Bool) : admissionCreate xrd server ≠ .allowed := by
+  obtain ⟨n, hn⟩ := claim_names_rejected xrd c hc hcol
+  simp only [derive] at hn
+  simp only [admissionCreate, admission]
+  split
+  · intro h; cases h
+  · simp only [allCrds, hc, hn]
+    cases forXR xrd with
+    | error e => intro h; cases h
+    | ok x => intro h; cases h
+
+/-! ## immutability -/
+
+/-- ValidateUpdate reports an error whenever the group, the kind or the plural changes, or both
+XRDs have claim names whose kind or plural differ -/
+theorem immutable (new old : Xrd)
+    (h : new.group ≠ old.group ∨ new.names.kind ≠ old.names.kind ∨ new.names.plural ≠ old.names.plural ∨
+         (∃ cn co, new.claimNames = some cn ∧ old.claimNames = some co ∧ (cn.kind ≠ co.kind ∨ cn.plural ≠ co.plural))) :
+    validateUpdate new old ≠ [] := by
+  unfold validateUpdate
+  rcases h with h | h | h | ⟨cn, co, hn, ho, h⟩
+  · simp [h]
+  · simp [h]
+  · simp [h]
+  · rw [hn, ho]
+    rcases h with h | h <;> simp [h]
+
+/-- exactly these changes (and an invalid conversion setting) are refused: in particular adding or
+removing `claimNames` wholesale, and changing singular/listKind/short names/categories, is accepted -/
+theorem update_accepted_iff (new old : Xrd) :
+    validateUpdate new old = [] ↔
+      (new.group = old.group ∧ new.names.kind = old.names.kind ∧ new.names.plural = old.names.plural ∧
+       (∀ cn co, new.claimNames = some cn → old.claimNames = some co → cn.kind = co.kind ∧ cn.plural = co.plural) ∧
+       validate new = []) := by
+  unfold validateUpdate
+  constructor
+  · intro h
+    simp only [List.append_eq_nil_iff] at h
+    obtain ⟨⟨⟨⟨h1, h2⟩, h3⟩, h4⟩, h5⟩ := h
+    refine ⟨by simpa using h1, by simpa using h3, by simpa using h2, ?_, h5⟩
+    intro cn co hn ho
+    rw [hn, ho] at h4
+    simp only [List.append_eq_nil_iff] at h4
+    exact ⟨by simpa using h4.2, by simpa using h4.1⟩
+  · rintro ⟨h1, h2, h3, h4, h5⟩
+    simp only [h1, h2, h3, h5, ne_eq, not_true_eq_false, if_false, List.nil_append, List.append_nil]
+    cases hn : new.claimNames with
+    | none => rfl
+    | some cn =>
+      cases ho : old.claimNames with
+      | none => rfl
+      | some co =>
+        obtain ⟨a, b⟩ := h4 cn co hn ho
+        simp [a, b]
+
+/-- the webhook denies such an update before it derives or dry-runs anything -/
+theorem immutable_webhook (new old : Xrd) (server : Crd → Bool) (h : validateUpdate new old ≠ []) :
+    admissionUpdate new old server = .invalid (validateUpdate new old) := by
+  simp [admissionUpdate, admission, h]
+
+/-- the webhook admits an XRD only if every derived CRD passes the API server's dry run -/
+theorem admitted_only_if_server_accepts (xrd : Xrd) (server : Crd → Bool) (h : admissionCreate xrd server = .allowed) :
+    validate xrd = [] ∧ ∃ x, forXR xrd = .ok x ∧ server x = true ∧
+      (∀ c, xrd.claimNames = some c → ∃ cc, forClaim xrd = .ok cc ∧ server cc = true) := by
+  simp only [admissionCreate, admission] at h
   split at h
   · cases h
-  · cases h; rfl
+  · rename_i hv
+    refine ⟨by simpa using hv, ?_⟩
+    simp only [allCrds] at h
+    cases hx : forXR xrd with
+    | error e => simp [hx] at h
+    | ok x =>
+      simp only [hx] at h
+      cases hc : xrd.claimNames with
+      | none =>
+        simp only [hc, dryRun] at h
+        refine ⟨x, rfl, ?_, by intro c h'; cases h'⟩
+        by_cases hs : server x = true
+        · exact hs
+        · simp [hs] at h
+      | some c =>
+        simp only [hc] at h
+        cases hcl : forClaim xrd with
+        | error e => simp [hcl] at h
+        | ok cc =>
+          simp only [hcl, dryRun] at h
+          by_cases hs : server x = true
+          · simp only [hs, if_true] at h
+            by_cases hs2 : server cc = true
+            · exact ⟨x, rfl, hs, by intro c' _; exact ⟨cc, rfl, hs2⟩⟩
+            · simp [hs2] at h
+          · simp [hs] at h
+
+/-! ## the hypotheses are satisfiable (non-vacuity) -/
+
+/-! `exXrd` (Model/C11): two versions; the first one's schema declares `spec.claimRef` and
+`status.conditions` as strings, a CEL rule, oneOf, preserve-unknown-fields and a name limit of 30. -/
+
+/-- both CRDs are derived for it, with two versions of which the second is the storage version -/
+example : ∃ x c, derive .xr exXrd = .ok x ∧ derive .claim exXrd = .ok c ∧
+    x.versions.map (·.storage) = [false, true] ∧ c.versions.map (·.name) = ["v1alpha1", "v1"] := by
+  refine ⟨_, _, rfl, rfl, ?_, ?_⟩ <;> decide
+
+/-- the author's `spec.claimRef : string` did not survive, `spec.region` did -/
+example : ∃ x v, derive .xr exXrd = .ok x ∧ x.versions.head? = some v ∧
+    (lookup "claimRef" (prop v.schema "spec").props).map (·.type) = some "object" ∧
+    (lookup "region" (prop v.schema "spec").props).map (·.type) = some "string" ∧
+    (lookup "compositionUpdatePolicy" (prop v.schema "spec").props).map (·.default) = some (some "\"Manual\"") ∧
+    (prop (prop v.schema "metadata") "name").maxLength = some 30 := by
+  refine ⟨_, _, rfl, rfl, ?_, ?_, ?_, ?_⟩ <;> decide
+
+/-- colliding claim names exist and are refused -/
+example : ∃ n, derive .claim { exXrd with claimNames := some { kind := "Database", plural := "xdatabases" } } = .error (.conflictingClaimName n) :=
+  ⟨"xdatabases", rfl⟩
+
+/-- an update that only drops the claim names passes, one that renames the kind does not -/
+example : validateUpdate { exXrd with claimNames := none } exXrd = [] := by decide
+example : validateUpdate { exXrd with names := { exXrd.names with kind := "XDb" } } exXrd = ["spec.names.kind"] := by decide
 
 end Xp.C11
